@@ -760,6 +760,50 @@ def r01_11(ctx, p):
 
 
 # ------------------------------------------------------------------------------------------------
+def r01_13(ctx, p):
+    ctx.rule("R01.13", "every primary backend checks distribution compatibility on the parameter-write path before the write, for every "
+             "caller/replayer (an incompatible set_trial_param is rejected with the same error class everywhere)")
+    sites = [
+        (INMEM + ".set_trial_param", lambda c: (dotted(c.func) or "").endswith("check_distribution_compatibility"),
+         lambda n: any(self_attr(c.func) == "_set_trial" for c in n.calls())),
+        (REPLAY + "._apply_set_trial_param", lambda c: (dotted(c.func) or "").endswith("check_distribution_compatibility"),
+         lambda n: n.kind == "stmt" and isinstance(n.ast, ast.Assign) and any(isinstance(t, ast.Subscript) and self_attr(t.value) == "_trials" for t in n.ast.targets)),
+        (MODELS + ".TrialParamModel.check_and_add", lambda c: isinstance(c.func, ast.Attribute) and c.func.attr == "_check_compatibility_with_previous_trial_param_distributions",
+         lambda n: any(norm(c.func) == "session.add" for c in n.calls())),
+        (MODELS + ".TrialParamModel._check_compatibility_with_previous_trial_param_distributions",
+         lambda c: (dotted(c.func) or "").endswith("check_distribution_compatibility"), None),
+    ]
+    for q, is_check, is_write in sites:
+        f = p.func(q)
+        g = CFG(f.node, name=f.qualname)
+        checks = [n for n in g.stmt_nodes() if any(is_check(c) for c in n.calls())]
+        ctx.check(bool(checks), "R01.13", f.short, "compatibility-check-present",
+                  message=f"{f.name} no longer checks distribution compatibility with earlier trials of the study", how="check call present")
+        if not checks:
+            continue
+        # reachable for a replayer that did not issue the record / for any caller
+        def atom_issuer(e):
+            if isinstance(e, ast.Call) and self_attr(e.func) == "_is_issued_by_this_worker":
+                return True
+            return None
+        issuer_true = [(t, k, m) for t in g.stmt_nodes() if t.kind == "test" for k, m in t.succ if edges_where(t.expr, atom_issuer).get(k) is True]
+        r = g.reachable([g.entry], avoid_edges=issuer_true)
+        ctx.check(any(c in r for c in checks), "R01.13", f.short, "check-not-issuer-only",
+                  message=f"{f.name} runs the compatibility check only for the worker that issued the record: every other worker applies an incompatible "
+                          f"parameter that the issuer (and every other backend) rejects with ValueError", how="check reachable without taking an issuer-true edge")
+        if is_write is not None:
+            writes = [n for n in g.stmt_nodes() if is_write(n)]
+            ctx.require(writes, f"R01.13: write statement of {q} not found")
+            # the write is not reachable from entry on a path that bypasses the region containing the check when a previous
+            # parameter of that name exists: approximated by 'some check can reach every write'
+            ok = all(any(w in g.reachable([c]) for c in checks) for w in writes)
+            ctx.check(ok, "R01.13", f.short, "check-precedes-write", message=f"{f.name}: the compatibility check does not precede the parameter write", how="check reaches the write")
+    rdbf = p.func(RDB + "._set_trial_param_without_commit")
+    ctx.check(any(isinstance(c, ast.Call) and isinstance(c.func, ast.Attribute) and c.func.attr == "check_and_add" for c in own_nodes(rdbf.node)), "R01.13", rdbf.short,
+              "uses-check_and_add", message="RDB parameter write bypasses TrialParamModel.check_and_add", how="check_and_add call")
+
+
+# ------------------------------------------------------------------------------------------------
 KEY_COLUMNS = {"trial_id", "study_id", "key", "step", "objective", "param_name"}
 UPSERT_EXEMPT = {"record_heartbeat": "a new heartbeat row takes the column's server-side default timestamp; only the update writes it explicitly"}
 
@@ -842,3 +886,4 @@ def run(ctx):
     r01_10(ctx, p)
     r01_11(ctx, p)
     r01_12(ctx, p)
+    r01_13(ctx, p)
